@@ -147,6 +147,64 @@ def to_rows(D, base=0x1000):
                       Previous_TParm_ID=pp, Descrip='')
                 pp = pid
 
+    # state machines: D['classes'][i]['sms'] = [{'kind': 'ism' | 'asm', 'events': [{'numb', 'mning', 'data': [[name, type]]}],
+    #   'states': [{'name', 'numb', 'body'}], 'txns': [[from state index | None (creation transition), event index, to state index,
+    #   transition action text | None]], 'ignored': [[state index, event index]]}]
+    ix['state'] = {}
+    ix['evt'] = {}
+    for ci, c in enumerate(D['classes']):
+        for sm in c.get('sms', []):
+            oid = ix['cls'][ci]
+            smid = R.id()
+            R.add('SM_SM', SM_ID=smid, Descrip='', Config_ID=0)
+            R.add('SM_ISM' if sm['kind'] == 'ism' else 'SM_ASM', SM_ID=smid, Obj_ID=oid)
+            R.add('SM_MOORE', SM_ID=smid)
+            evt_ids = []
+            for ev in sm['events']:
+                eid = R.id()
+                evt_ids.append(eid)
+                lbl = '%s%s%d' % (c['kl'], '_A' if sm['kind'] == 'asm' else '', ev['numb'])
+                ix['evt'][(ci, sm['kind'], ev['numb'])] = eid
+                R.add('SM_EVT', SMevt_ID=eid, SM_ID=smid, SMspd_ID=0, Numb=ev['numb'], Mning=ev['mning'], Is_Lbl_U=0,
+                      Unq_Lbl='', Drv_Lbl=lbl, Descrip='')
+                R.add('SM_SEVT', SMevt_ID=eid, SM_ID=smid, SMspd_ID=0)
+                R.add('SM_LEVT', SMevt_ID=eid, SM_ID=smid, SMspd_ID=0)
+                prev = 0
+                for dn, dt in ev['data']:
+                    did = R.id()
+                    R.add('SM_EVTDI', SMedi_ID=did, SM_ID=smid, Name=dn, Descrip='', DT_ID=type_id(dt), Dimensions='',
+                          SMevt_ID=eid, Previous_SMedi_ID=prev)
+                    prev = did
+            st_ids = []
+
+            def action(text):
+                aid = R.id()
+                R.add('SM_ACT', Act_ID=aid, SM_ID=smid, Suc_Pars=1, Action_Semantics_internal=text, Descrip='', Dialect=0)
+                R.add('SM_AH', Act_ID=aid, SM_ID=smid)
+                return aid
+            for stt in sm['states']:
+                sid = R.id()
+                st_ids.append(sid)
+                ix['state'][(ci, sm['kind'], stt['name'])] = sid
+                R.add('SM_STATE', SMstt_ID=sid, SM_ID=smid, SMspd_ID=0, Name=stt['name'], Numb=stt['numb'], Final=0)
+                aid = action(stt['body'])
+                R.add('SM_MOAH', Act_ID=aid, SM_ID=smid, SMstt_ID=sid)
+            for tk, (frm, ei, to, ttext) in enumerate(sm['txns']):
+                tid = R.id()
+                ix.setdefault('txn', {})[(ci, sm['kind'], tk)] = tid
+                R.add('SM_TXN', Trans_ID=tid, SM_ID=smid, SMstt_ID=st_ids[to], SMspd_ID=0)
+                if frm is None:
+                    R.add('SM_CRTXN', Trans_ID=tid, SM_ID=smid, SMevt_ID=evt_ids[ei], SMspd_ID=0)
+                else:
+                    R.add('SM_SEME', SMstt_ID=st_ids[frm], SMevt_ID=evt_ids[ei], SM_ID=smid, SMspd_ID=0)
+                    R.add('SM_NSTXN', Trans_ID=tid, SM_ID=smid, SMstt_ID=st_ids[frm], SMevt_ID=evt_ids[ei], SMspd_ID=0)
+                if ttext is not None:
+                    aid = action(ttext)
+                    R.add('SM_TAH', Act_ID=aid, SM_ID=smid, Trans_ID=tid)
+            for si, ei in sm.get('ignored', []):
+                R.add('SM_SEME', SMstt_ID=st_ids[si], SMevt_ID=evt_ids[ei], SM_ID=smid, SMspd_ID=0)
+                R.add('SM_EIGN', SMstt_ID=st_ids[si], SMevt_ID=evt_ids[ei], SM_ID=smid, SMspd_ID=0, Descrip='')
+
     if D.get('irdt'):
         # instance reference data types per class (inst_ref<KL>, inst_ref_set<KL>), as BridgePoint creates them
         for ci, c in enumerate(D['classes']):
